@@ -102,6 +102,8 @@ class Harness:
                 tgt.append((rtype, name))
                 if name == "a" and rtype == "file":
                     raise OSError("cleanup fails")
+                if name == "b:c" and rtype == "file":
+                    raise ValueError("embedded null byte")      # not every failure is an OSError
             return f
 
         class F:
